@@ -298,6 +298,12 @@ structure Grads (α : Type) where
   start : V3 α        -- (∂/∂v₀, ∂/∂a₀, ∂/∂j₀)
   fin : V3 α
 
+/-- `U` block of the last interior knot -/
+def endU : Seg α → List (Seg α) → M3 α
+  | _, [sR] => blockU sR.tp
+  | _, sR :: s2 :: ss => endU sR (s2 :: ss)
+  | s, [] => blockU s.tp
+
 def propagate (b : Built α) (gs : List (C8 α)) : Grads α :=
   let l1 := loop1 b.segs gs b.knots
   let gd := oaddV3 (l1.map (·.2.1))
@@ -307,11 +313,13 @@ def propagate (b : Built α) (gs : List (C8 α)) : Grads α :=
   let l2 := loop2 b.segs b.knots lam
   let pts := zipAdd (oadd (l1.map (·.1))) (oadd3 (l2.map (·.1)))
   let tms := zipAdd (l1.map (·.2.2)) (oadd (l2.map (·.2)))
+  -- `L_blocks_cache_(0)` and `U_blocks_cache_(num_blocks-1)` hold the blocks of the first / last interior knot
   let (st, en) :=
-    match b.facts.head?, b.facts.getLast?, lam.head?, lam.getLast? with
-    | some f0, some fl, some lam0, some laml =>
-        (V3.sub rawStart (M3.actT f0.l lam0), V3.sub rawEnd (M3.actT fl.u laml))
-    | _, _, _, _ => (rawStart, rawEnd)
+    match b.segs with
+    | s0 :: s1 :: rest =>
+        (V3.sub rawStart (M3.actT (blockL s0.tp) (lam.headD V3.zero)),
+         V3.sub rawEnd (M3.actT (endU s0 (s1 :: rest)) (lam.getLastD V3.zero)))
+    | _ => (rawStart, rawEnd)
   { points := pts, times := tms, start := st, fin := en }
 
 end Septic
